@@ -290,7 +290,7 @@ def run(ctx):
     import os
     cfg = os.path.join(ctx.work, 'MC_SymTab_run.cfg')
     with open(os.path.join(os.path.dirname(__file__), '..', '..', 'spec', 'MC_SymTab.cfg')) as fh:
-        text = fh.read().replace('MaxDepth = 5', f'MaxDepth = {4 if quick else 6}')
+        text = fh.read().replace('MaxDepth = 5', f'MaxDepth = {4 if quick else 5}')
     with open(cfg, 'w') as fh:
         fh.write(text)
     ctx.mc('MC_SymTab', cfg, timeout=2400)
